@@ -3,6 +3,7 @@ package verifharness
 // C12 — a print call's result depends only on its own arguments.
 
 import (
+	"io"
 	"bytes"
 	"fmt"
 	"runtime"
@@ -94,6 +95,13 @@ var probeBattery = []probeCall{
 		l2 := []*Op{{K: "Print", Args: []*Val{{K: "safefmt", Ops: l3}, {K: "SafeInt", I: 2}}}}
 		l1 := []*Op{{K: "Printf", S: B("1<%v|%v>"), Args: []*Val{{K: "safefmt", Ops: l2}, {K: "str", S: B("w")}}}}
 		return probeResult{out: []byte(redact.Sprintf("%v %s", newSafeFmtV(l1, 0), "end"))}
+	}},
+	// formatters that read everything their State reports, numbers included
+	// (whether or not the "present" flag is set)
+	mkProbe("formatter-state-sprintf", "Sprintf", "%v|%s", rawStateFmt{}, rawStateFmt{}),
+	mkProbe("formatter-state-sprint", "Sprint", "", rawStateFmt{}, 1),
+	{name: "safeformatter-state", run: func() probeResult {
+		return probeResult{out: []byte(redact.Sprint(SafeFmtV{run: func(p redact.SafePrinter, verb rune) { p.SafeString(redact.SafeString(rawState(p, verb))) }}))}
 	}},
 	{name: "caught-panic", run: func() probeResult {
 		return probeResult{out: []byte(redact.Sprintf("%v|%d", StringerV{S: "x", pan: func() interface{} { return "boom" }}, 1))}
@@ -319,4 +327,22 @@ func checkC12Conc(s *C12Conc) Result {
 		}
 	}
 	return res
+}
+
+// rawStateFmt prints what its fmt.State reports, including the width and
+// precision numbers when they are reported as absent.
+type rawStateFmt struct{}
+
+func (rawStateFmt) Format(st fmt.State, verb rune) { io.WriteString(st, rawState(st, verb)) }
+
+func rawState(st fmt.State, verb rune) string {
+	w, wok := st.Width()
+	p, pok := st.Precision()
+	s := fmt.Sprintf("[w=%d,%v p=%d,%v ", w, wok, p, pok)
+	for _, c := range "+-# 0" {
+		if st.Flag(int(c)) {
+			s += string(c)
+		}
+	}
+	return s + "%" + string(verb) + "]"
 }
